@@ -36,8 +36,7 @@ def _configs(tier):
     ]
     if tier != "quick":
         regimes += [dict(name="season-late-denseCC-irrig", part="potential", gs=True, reinit=False, dap="late", mulch=False, method=5, ccx=0.99),
-                    dict(name="season-mid-full", part="full", gs=True, reinit=False, dap="mid", mulch=False, method=0, ccx=0.96),
-                    dict(name="fallow-first-step", part="potential", gs=False, reinit=True, dap="zero", mulch=False, method=0, ccx=0.96),
+                                        dict(name="fallow-first-step", part="potential", gs=False, reinit=True, dap="zero", mulch=False, method=0, ccx=0.96),
                     dict(name="season-mid-mulch-irrig", part="potential", gs=True, reinit=False, dap="mid", mulch=True, method=3, ccx=0.96)]
     ks = [1]      # two unrolled sub-steps: 'Es >= 0' stays undecided (abstract counterexamples, exact NRA unknown) - one step + induction argument only
     evzs = [0.15, 0.237, 0.3] if tier == "quick" else [0.15, 0.2, 0.237, 0.3]
